@@ -46,9 +46,9 @@ def plan(tier, seed, rng, scale):
         descs.append({'k': rng.choice(G.ALL_K), 'rc': rng.random() < 0.7, 'rule': rng.choice(list(RULES)),
                       'minc': rng.randint(1, 6), 'minq': rng.choice([0, 1, 2, 10, 20, 30, 40]), 'seed': rng.getrandbits(32)})
     # inputs with >= 10^5 distinct k-mers for the collision-rate clause (one medium one in quick, three big ones in thorough)
-    for i in range(1 if tier == 'quick' else 3):
+    for i in range(1 if tier == 'quick' else 4):
         descs.append({'k': rng.choice([21, 31, 33]), 'rc': True, 'rule': 'none', 'minc': rng.choice([2, 3]), 'minq': 0,
-                      'seed': rng.getrandbits(32), 'large': 60000 if tier == 'quick' else 200000})
+                      'seed': rng.getrandbits(32), 'large': 250000})
     for i, d in enumerate(descs):
         d['chk'] = (i % 8 == 0) and not d.get('large')
     return descs
@@ -96,7 +96,7 @@ def gen_reads(rng, desc):
     Glen = large if large else rng.randint(2 * k, 6 * k)
     genome = G.rseq(rng, Glen)
     reads = [[], []]
-    cov = (6 if large >= 200000 else 3) if large else rng.randint(2, 12)
+    cov = 2 if large else rng.randint(2, 12)
     RL = 100 if large else None
     nreads = max(2, cov * Glen // (RL or 2 * k))
 
